@@ -1,4 +1,7 @@
 import I18n.Model.Hdr
+import I18n.Generated.Domains
+import I18n.Generated.GettextHdr
+import I18n.Generated.HdrChk
 import I18n.Driver.Util
 import I18n.Driver.Charset
 /-!
@@ -21,6 +24,10 @@ as `~`, empty lists / tables as `_`.
 `msgid/msgctxt/obsolete/occurrences/msgid_plural/msgstr/msgstr0/flags` (occurrences `,`-separated `path:line`);
 `<encs>` = `;`-separated `<enc>=<dec>/<codec|~>/<joined outcome>:<per-character outcomes>` (see Driver/Charset);
 `<chars>` = `~` (no language) | `^` (no list) | `,`-separated characters.
+
+`g<op>` = the same operation through the definitions REGENERATED from the source (`Generated.Domains`, `Generated.GettextHdr`,
+`Generated.HdrChk`; proved equal to the model in `Props/C15Tie.lean`): `gparse`, `gemail` (→ `ok <special> <dotless>` | `err <exc>`),
+`gcomments`, `gproject`, `gtranslator`; an exception is `err <name>`.
 -/
 namespace I18n.Driver.Hdr
 open I18n I18n.Hdr I18n.Generated
@@ -159,6 +166,30 @@ def handle (op : String) (args : List String) : String :=
     match checkAll x (charsetCheck (t == "1") chars encs) (Driver.parseInt now) ⟨⟨t == "1", b == "1"⟩, S comments, entriesOf es⟩ with
     | none => "err crash"
     | some ts => "ok " ++ showTags ts
+  -- the definitions regenerated from lib/domains.py, lib/gettext.py, lib/check/__init__.py
+  | "gparse", [s] =>
+    match Generated.GettextHdr.parse_header (S s) with
+    | .error e => "err " ++ e.name
+    | .ok ls => "ok " ++ (if ls.isEmpty then "-" else ";".intercalate (ls.map showLine))
+  | "gemail", [a, lowerT] =>
+    let db := udb (tableOf lowerT)
+    let b := fun (x : Bool) => if x then "1" else "0"
+    match Generated.Domains.is_email_in_special_domain db.lower (S a), Generated.Domains.is_email_in_dotless_domain (S a) with
+    | .ok sp, .ok dl => s!"ok {b sp} {b dl}"
+    | .error e, _ => "err " ++ e.name
+    | _, .error e => "err " ++ e.name
+  | "gcomments", [t, text] =>
+    match Generated.HdrChk.check_comments (ext [] [] [] [] []) (t == "1") (S text) [] with
+    | .error e => "err " ++ e.name
+    | .ok ts => "ok " ++ showTags ts
+  | "gproject", [ls, addrT, schemeT, lowerT] =>
+    match Generated.HdrChk.check_project (ext (tableOf lowerT) (tableOf addrT) (tableOf schemeT) [] []) (metaOf ls) [] with
+    | .error e => "err " ++ e.name
+    | .ok ts => "ok " ++ showTags ts
+  | "gtranslator", [t, ls, addrT, lowerT] =>
+    match Generated.HdrChk.check_translator (ext (tableOf lowerT) (tableOf addrT) [] [] []) (metaOf ls) (t == "1") [] with
+    | .error e => "err " ++ e.name
+    | .ok ts => "ok " ++ showTags ts
   | _, _ => "bad-op"
 
 end I18n.Driver.Hdr
